@@ -1,14 +1,20 @@
 """C12 — repeat is a periodic extension with the original spacing."""
 from tools.harness.core import Property
+from tools.props.weaver_units import WeaverUnit
 from tools.props.proc_units import RepeatUnit
+
+
+class WC12(WeaverUnit):
+    name = "weaver_c12"
 
 
 class C12(Property):
     id = "C12"
+    gen_targets = ["Funfit"]
     rule = "series of 2..40 points (uniform / non-uniform dyadic / integer dtype), r in 0..12, all factor pairs a*b <= 12; distinct = distinct (x, y, r)"
 
     def units(self, tier):
-        return [RepeatUnit()]
+        return [RepeatUnit(), WC12(("C12",), ops=['repeat','repeat','append','shift_x','scale_x','truncate_by_index','recreate'], max_len=6, queries=False)]
 
 
 PROPERTY = C12()
